@@ -217,6 +217,13 @@ func (u *UserHash) writeHashStr(password string, isAdmin bool, mayCreate bool) e
 		return err
 	}
 
+	// Open the directory first: after the move nothing but the flush itself may fail
+	dir, err := os.Open(filepath.Dir(file.Name()))
+	if err != nil {
+		return err
+	}
+	defer dir.Close() //nolint:errcheck
+
 	// Atomically move the new file in place
 	if err := os.Rename(tmp.Name(), file.Name()); err != nil {
 		return err
@@ -224,11 +231,6 @@ func (u *UserHash) writeHashStr(password string, isAdmin bool, mayCreate bool) e
 	renamed = true
 
 	// Flush the move to disk
-	dir, err := os.Open(filepath.Dir(file.Name()))
-	if err != nil {
-		return err
-	}
-	defer dir.Close() //nolint:errcheck
 	return dir.Sync()
 }
 
@@ -291,11 +293,17 @@ func (u *UserHash) SetAdmin(adminState bool) error {
 		oldname += adminExt
 		newname += userExt
 	}
+	// Open the directory first: after the move nothing but the flush itself may fail
+	dir, err := os.Open(u.store.BaseDir)
+	if err != nil {
+		return err
+	}
+	defer dir.Close() //nolint:errcheck
 	if err := os.Rename(oldname, newname); err != nil {
 		return err
 	}
 	// Flush the move to disk
-	return syncDir(u.store.BaseDir)
+	return dir.Sync()
 }
 
 // Remove deletes hash file.
